@@ -235,7 +235,9 @@ func (o opts) render(m *material, cb *cbState, cache tls.ClientSessionCache) cli
 	}
 	if o.caPool != "none" {
 		p := x509.NewCertPool() // a fresh pool per call: TLSClientAuth may add to it
-		p.AddCert(m.ca[o.caPool].cert)
+		if o.caPool != "empty" { // "empty": a supplied pool without any certificate (trust nothing)
+			p.AddCert(m.ca[o.caPool].cert)
+		}
 		t.LoadedCAPool = p
 	}
 	if o.serverName != "none" {
@@ -557,7 +559,7 @@ var (
 	keyLoadeds  = []string{"none", "rsa", "ec", "other_rsa", "other_ec", "ed25519"}
 	caFiles     = []string{"none", "ca1", "ca2", "unreadable", "garbage"}
 	caLoadeds   = []string{"none", "ca1", "ca2"}
-	caPools     = []string{"none", "ca1", "ca2"}
+	caPools     = []string{"none", "ca1", "ca2", "empty"}
 )
 
 func generate(c *drv.Ctx) {
@@ -623,7 +625,7 @@ func generate(c *drv.Ctx) {
 		for _, cl := range []string{"none", "ec"} {
 			for _, af := range []string{"none", "ca1", "garbage"} {
 				for _, al := range []string{"none", "ca2"} {
-					for _, ap := range []string{"none", "ca1"} {
+					for _, ap := range []string{"none", "ca1", "empty"} {
 						for f := 0; f < 32; f++ {
 							o := opts{certFile: cf, certLoaded: cl, caFile: af, caLoaded: al, caPool: ap,
 								serverName: []string{"none", []string{"dns", "ipv4", "ipv6"}[f%3]}[f&1], insecure: f&2 != 0, callback: f&4 != 0, tickets: f&8 != 0, cache: f&16 != 0}
